@@ -841,13 +841,13 @@ pub fn run(args: &Args) -> i32 {
     }
     // 2. sampled pairs with the combined read+write state (4 states per resource)
     let b2 = budget.slice(0.15);
-    let per = args.by_tier(400_000u64, 20_000_000) / jobs as u64;
+    let per = args.by_tier(2_000_000u64, 20_000_000) / jobs as u64;
     run_shards(&mut rep, jobs, jobs, |shard, rep| {
         pairs_shard(rep, &uni, 4, shard, jobs, Some((args.seed ^ 0x44, per)), &b2);
     });
     // 3. triples
     let b3 = budget.slice(0.2);
-    let stride = args.by_tier(16usize, 1);
+    let stride = args.by_tier(8usize, 1);
     let complete_triples = std::sync::atomic::AtomicBool::new(true);
     run_shards(&mut rep, jobs, jobs * 2, |shard, rep| {
         if !triples_shard(rep, &uni, shard, jobs * 2, stride, &b3) {
@@ -863,7 +863,7 @@ pub fn run(args: &Args) -> i32 {
     // 4. random sets with adversarial keys; fixed boundary sizes first
     let b4 = budget.slice(0.2);
     let sizes = [0usize, 1, 2, 1023, 1024, 1025, 4096, 5000];
-    let n_cases = args.by_tier(160u64, 6000);
+    let n_cases = args.by_tier(600u64, 6000);
     run_shards(&mut rep, jobs, jobs, |shard, rep| {
         let mut case = shard as u64;
         while case < n_cases && !b4.expired() {
